@@ -462,6 +462,42 @@ example :
     (runSession BS.Gen.fmtHtmlRegistry BS.Gen.fmtXmlRegistry builtin [html]
         [.edit (fun _ => [xml]), .render 0 [0] arg .decode]).2 = [.ok (ofS "<script>1&amp;2</script>")] := by decide +kernel
 
+/-- **A copy renders like its original.** `copy.copy`/`copy.deepcopy` of a tag (`copy_self` records `is_xml=self._is_xml`
+    in every copied tag): the detached copy, rendered from its root with any `formatter=` argument through any output
+    method, gives what the original gives where it stands — in particular a flavour-less `Tag(name=…)` living in an XML
+    tree is copied as XML. -/
+theorem copy_renders_like_original (i : Subst → PStr → PStr) (d : Doc) (p : List Nat) (n : XNode) (par : Option PStr)
+    (chain : List (Option Bool)) (hd : descend d.root p [] none = some (n, par, chain)) (ht : n.name?.isSome = true)
+    (arg : FmtArg) (m : Mode) :
+    Doc.renderAt BS.Gen.fmtHtmlRegistry BS.Gen.fmtXmlRegistry ⟨n.copyWith (isXmlOf chain.tail d.rootAttr), false⟩ [] arg i m
+      = Doc.renderAt BS.Gen.fmtHtmlRegistry BS.Gen.fmtXmlRegistry d p arg i m :=
+  copy_renderAt _ _ i d p n par chain hd ht arg m
+
+/-- Inside the copy, and wherever the copy is put afterwards (`inh'`), every element has the flavour its original had. -/
+theorem copy_keeps_flavour_everywhere (q : List Nat) (n : XNode) (inh inh' : Bool) (hs : n.stringsPlain = true)
+    (ht : n.name?.isSome = true) : flavAt inh' (n.copyWith inh) q = flavAt inh n q :=
+  flavAt_copy q n inh inh' hs (Or.inl ht)
+
+/-- `flavAt` is what the walk computes: the chain `descend` collects on the way to an element resolves to it. -/
+theorem flavour_is_positional (r : Bool) (q : List Nat) (n : XNode) (e : XNode) (par : Option PStr)
+    (chain : List (Option Bool)) (h : descend n q [] none = some (e, par, chain)) : isXmlOf chain r = flavAt r n q := by
+  have := descend_flavour r q n [] none e par chain h
+  simpa [isXmlOf] using this
+
+/-- the hand-made `<script>1&2</script>` under an XML-flavoured root, copied: with "minimal" the copy substitutes like the
+    original (XML has no cdata-containing tags); the shipped-then-seeded variant `is_xml=self.known_xml` would give `1&2` -/
+example :
+    let xml : Doc := ⟨.tag (some true) [114] [] [] false false [handScript], false⟩
+    let arg := FmtArg.name (some N_minimal)
+    Doc.renderAt BS.Gen.fmtHtmlRegistry BS.Gen.fmtXmlRegistry ⟨handScript.copyWith true, false⟩ [] arg builtin .decode
+      = .ok (ofS "<script>1&amp;2</script>") ∧
+    Doc.renderAt BS.Gen.fmtHtmlRegistry BS.Gen.fmtXmlRegistry xml [0] arg builtin .decode = .ok (ofS "<script>1&amp;2</script>") ∧
+    Doc.renderAt BS.Gen.fmtHtmlRegistry BS.Gen.fmtXmlRegistry ⟨handScript, false⟩ [] arg builtin .decode
+      = .ok (ofS "<script>1&2</script>") := by decide +kernel
+example := copy_renders_like_original builtin ⟨.tag (some true) [114] [] [] false false [handScript], false⟩ [0] handScript
+  (some [114]) [none, some true] rfl (by decide) (.fn (.custom 0)) (.pretty 0)
+example := copy_keeps_flavour_everywhere [0] handScript true false (by decide) (by decide)
+
 /-! ## determinism -/
 
 /-- Attributes come out in key order whatever the insertion order (keys of a dict are distinct): same output, plain and
